@@ -47,6 +47,7 @@ import BV.Lemmas.CbrLen2
 import BV.Lemmas.CtxPrefix
 import BV.Lemmas.ReadShift
 import BV.Props.C01MetaBlockFull
+import BV.Props.C01Greedy
 import BV.Model.Catable
 import BV.Props.C01Chain
 
@@ -432,6 +433,51 @@ theorem catable_full_bits_position_independent {H : Type} (ops : HasherOps H) (p
     simpa using hrep.symm
   subst hout
   exact ⟨ring'', hrd⟩
+
+open BV.Greedy in
+/-- **`catable_greedy_bits_position_independent`** — the quality 4–9 pipeline with NO hypothesis on the `MetaBlockSplit`:
+`CreateBackwardReferences` (dictionary off), `BrotliBuildMetaBlockGreedy` (model `BV.Greedy.buildGreedy`, any float oracle
+with `OracleOK`, any static context map with `StaticOK`; w-greedy's `greedy_split_wellformed`), `BrotliStoreMetaBlock`:
+neither the builder nor the writer panics, and the emitted bits are read by the general RFC 7932 reader from EVERY
+foreign state to `h' ++ hist ++ mb`. -/
+theorem catable_greedy_bits_position_independent {H F : Type} (ops : HasherOps H) (fops : FOps F) (hirr : OracleOK fops)
+    (p : Params) (large : Bool)
+    (data : ByteArray) (k tail : Nat) (hist mb : Bytes) (lo : Nat)
+    (hb : BlockOK p large data k tail hist mb lo) (hops : OpsOK (SlotOK noWords) ops p data k)
+    (numBytes position : Nat) (h0 : H) (cache : List Int) (lastInsertLen numLiterals : Nat) (res : Result H)
+    (hpos : position = hist.length + lastInsertLen) (hmb : mb.length = lastInsertLen + numBytes)
+    (hc : CacheI32 cache) (hcl : 4 ≤ cache.length)
+    (h : createBackwardReferences ops p numBytes position h0 cache lastInsertLen numLiterals = some res)
+    (hist2 : 2 ≤ hist.length)
+    (ring : Bytes) (start mask prevByte prevByte2 : Nat) (isLast : Bool) (mode numContexts : Nat) (scm : List Nat)
+    (w : List Bool)
+    (hR : RingHolds ring mask start mb) (h256 : ∀ b ∈ mb, b < 256) (hh256 : ∀ b ∈ hist, b < 256)
+    (h1 : 1 ≤ mb.length) (h64 : start + mb.length < 2 ^ 64)
+    (hIP : inputPairCheck ring start mb.length mask = .ok ())
+    (hprev : prevByte = lastB hist ∧ prevByte2 = last2B hist) (hmode : mode < 4) (hst : StaticOK numContexts scm)
+    (hsz1 : mb.length + 512 ≤ 2 ^ 24) (hsz2 : (closeMetaBlock res.cmds res.lastInsertLen).length + 1024 ≤ 2 ^ 24) :
+    ∃ mbs bits,
+      buildGreedy fops ring start mask prevByte prevByte2 mode numContexts scm (closeMetaBlock res.cmds res.lastInsertLen)
+        = .ok mbs ∧
+      storeMetaBlockFull ring start mb.length mask prevByte prevByte2 isLast
+        ⟨0, 0, distAlphabetSize large 0 0, large⟩ mode (closeMetaBlock res.cmds res.lastInsertLen) mbs w = .ok (w ++ bits) ∧
+      ∀ (h' : Bytes) (_ : ∀ b ∈ h', b < 256) (ring' : List Int) (_ : RingRel (maxBackwardLimit p) (cache.take 4) ring')
+        (w' : WordOracle) (window' : Nat) (_ : maxBackwardLimit p ≤ window'),
+        ∃ ring'', ∀ rest, readMetaBlockFullG w' window' large w.length ⟨h' ++ hist, ring'⟩ (bits ++ rest)
+          = some (⟨h' ++ (hist ++ mb), ring''⟩, isLast, (w ++ bits).length, rest) := by
+  have hA544 : distAlphabetSize large 0 0 ≤ 544 := by cases large <;> decide
+  have hcl2 := catable_copylen2 ops p large data k tail hist mb lo hb hops numBytes position h0 cache lastInsertLen
+    numLiterals res hpos hmb hc hcl h
+  obtain ⟨hok, hlockA, _⟩ := catable_block_position_independent ops p large data k tail hist mb lo hb hops numBytes
+    position h0 cache lastInsertLen numLiterals res hpos hmb hc hcl h [] (cache.take 4) (RingRel.refl _ _) noWords
+    (maxBackwardLimit p) (Nat.le_refl _)
+  obtain ⟨mbs, e, hM, hcL, hcI, hcD⟩ := BV.Props.C01Greedy.greedy_split_wellformed fops hirr noWords (maxBackwardLimit p)
+    ring start mask prevByte prevByte2 mb ⟨0, 0, distAlphabetSize large 0 0, large⟩ mode numContexts scm _ ([] ++ hist)
+    (cache.take 4) hR h256 (by simpa using hh256) h64 (by simpa using hprev) hmode hst hA544 hok hcl2 hlockA hsz1 hsz2
+  obtain ⟨bits, e2, hrd⟩ := catable_full_bits_position_independent ops p large data k tail hist mb lo hb hops numBytes
+    position h0 cache lastInsertLen numLiterals res hpos hmb hc hcl h hist2 ring start mask prevByte prevByte2 isLast mode mbs
+    w hR h256 hh256 h1 h64 hIP hprev hmode hM (by simpa using hcL) hcI hcD
+  exact ⟨mbs, bits, e, e2, hrd⟩
 
 /-! ## the concatenator's bit shift -/
 
